@@ -262,7 +262,16 @@ func (p *ProtoCodec) MarshalAppendStable(base []byte, msg proto.Message) ([]byte
 }
 
 // Unmarshal implements [Codec].
-func (p *ProtoCodec) Unmarshal(bytes []byte, msg proto.Message) error {
+func (p *ProtoCodec) Unmarshal(bytes []byte, msg proto.Message) (err error) {
+	defer func() {
+		// Malformed input can make the protobuf runtime panic instead of returning an
+		// error (e.g. a map entry of a dynamic message whose key is given twice, the
+		// second time with the wrong wire type). That is an undecodable message, not a
+		// reason to take the handler down.
+		if r := recover(); r != nil {
+			err = fmt.Errorf("proto: cannot unmarshal message: %v", r)
+		}
+	}()
 	return p.unmarshal.Unmarshal(bytes, msg)
 }
 
